@@ -1,6 +1,9 @@
 //! nbverif: pure executor. Reads cases on stdin, writes one observation line per case.
+mod crash;
 mod dim;
 mod echo;
+mod eval;
+mod fmt;
 mod html;
 mod list;
 mod prefix;
@@ -19,10 +22,13 @@ fn main() {
     // keep panic messages out of stderr noise; harness functions use catch_unwind
     std::panic::set_hook(Box::new(|_| {}));
     match args[1].as_str() {
+        "crash" => crash::main(),
         "dim" => dim::main(),
         "dim-env" => dim::main_env(),
         "dim-run" => dim::main_run(),
         "echo" => echo::main(),
+        "eval" => eval::main(),
+        "fmt" => fmt::main(),
         "html" => html::main(),
         "list" => list::main(),
         "prefix" => prefix::main(),
